@@ -148,6 +148,11 @@ func (ds *NativeSM) Loaded() {
 
 // Close closes the underlying user state machine and set the destroyed flag.
 func (ds *NativeSM) Close() error {
+	// Lookup and NALookup test the destroyed flag and call into the user
+	// state machine while holding ds.mu, hold it here so Close never overlaps
+	// an in-flight lookup and the flag is not accessed concurrently.
+	ds.mu.Lock()
+	defer ds.mu.Unlock()
 	if err := ds.sm.Close(); err != nil {
 		return err
 	}
